@@ -27,7 +27,7 @@ def run(ctx):
         pc.design(ctx, ["MC_Production_member_quick.cfg", "MC_Production_endorse_quick.cfg", "MC_Production_pos_quick.cfg",
                         "MC_Production_sibling_quick.cfg", "MC_Production_possib_quick.cfg"], timeout=900)
     else:
-        pc.design(ctx, ["MC_Production_mixed_thorough.cfg", "MC_Production_endorse_thorough.cfg", "MC_Production_pos_thorough.cfg",
+        pc.design(ctx, ["MC_Production_member_thorough.cfg", "MC_Production_endorse_thorough.cfg", "MC_Production_pos_thorough.cfg",
                         "MC_Production_pos0_thorough.cfg", "MC_Production_sibling_thorough.cfg", "MC_Production_possib_thorough.cfg"],
                   timeout=3000)
     # 2. the model has teeth: every cache rule of the code is needed for CacheCoherent; nothing holds vacuously
